@@ -4,6 +4,7 @@
    history theorems. *)
 From TV Require Import Base.Prelude Gen.Consts Spec.Ordered Model.Datetime Model.Numbers Model.Tree.
 From TV Require Import Spec.EditSpec Model.Edit Proofs.ContainersOrder Proofs.EditRefineBase.
+From Coq Require Import Sorting.Permutation.
 
 (* ==================================================================================== *)
 (** * Induction over value / item / tbl, and over payloads *)
@@ -475,12 +476,12 @@ Proof.
   - exact (at_path_sim _ _ _ op_aot_push_sim _ _ H).
   - exact (at_path_sim _ _ _ (op_aot_remove_sim i) _ _ H).
   - exact (at_path_sim _ _ _ op_sort_sim _ _ H).
-  - rewrite <- (spec_at_id q (abs_item (ITable t))). exact (at_path_sim _ _ _ op_fmt_sim _ _ H).
+  - rewrite <- (spec_at_id q (abs_tbl t)). exact (at_path_sim _ _ _ op_fmt_sim _ _ H).
   - exact (at_path_sim _ _ _ (op_slot_sim k make_value _ (proj1 make_value_abs)) _ _ H).
   - exact (at_path_sim _ _ _ (op_slot_sim k into_table_slot _ into_table_slot_abs) _ _ H).
   - exact (at_path_sim _ _ _ (op_slot_sim k into_aot_slot _ into_aot_slot_abs) _ _ H).
   - simpl in H. destruct ks as [|k ks]; [discriminate|].
-    rewrite <- build_item_abs. apply iset_sim. exact H.
+    rewrite <- build_item_abs. exact (iset_sim _ _ _ _ H).
 Qed.
 
 (* ==================================================================================== *)
@@ -522,4 +523,115 @@ Proof.
   - injection H as <-. reflexivity.
   - destruct (apply o t) as [t1|] eqn:E; [|discriminate].
     unfold spec_apply_all. simpl. rewrite <- (step_content _ _ _ E). apply IH. exact H.
+Qed.
+
+(* ==================================================================================== *)
+(** * Order: `abs` keeps the order of the tree, and the reference functions put entries
+      where the API documents them *)
+
+Definition tab_keys (x : plain) : list bytes := match x with PTab _ _ l => map fst l | _ => [] end.
+
+Lemma abs_keeps_order t : tab_keys (abs t) = map (fun kv => k_key (fst kv)) (t_items t).
+Proof.
+  destruct t as [items d im dt p sp]. simpl. rewrite map_map. apply map_ext. intros [k i]. reflexivity.
+Qed.
+
+(* the keys of a list with the first occurrence of k removed *)
+Fixpoint del_first (k : bytes) (l : list bytes) : list bytes :=
+  match l with
+  | [] => []
+  | k' :: tl => if bytes_eqb k' k then tl else k' :: del_first k tl
+  end.
+
+Lemma r_upd_keys k g l : map fst (r_upd k g l) = map fst l.
+Proof.
+  induction l as [|[k' v] l IH]; simpl; [reflexivity|].
+  destruct (bytes_eqb k' k); simpl; [reflexivity|]. rewrite IH. reflexivity.
+Qed.
+
+(* insert: an existing key keeps its position, a new key goes last; nothing else moves *)
+Lemma e_put_keys k x l :
+  map fst (e_put k x l) = match e_get k l with Some _ => map fst l | None => map fst l ++ [k] end.
+Proof.
+  rewrite e_put_rec, e_get_rec. destruct (r_get k l).
+  - apply r_upd_keys.
+  - rewrite map_app. reflexivity.
+Qed.
+
+Lemma r_get_upd_same k g l : r_get k (r_upd k g l) = optmap g (r_get k l).
+Proof.
+  induction l as [|[k' v] l IH]; simpl; [reflexivity|].
+  destruct (bytes_eqb k' k) eqn:E; simpl; rewrite E; [reflexivity|exact IH].
+Qed.
+Lemma r_get_upd_other k k2 g l : bytes_eqb k2 k = false -> r_get k2 (r_upd k g l) = r_get k2 l.
+Proof.
+  intro N. induction l as [|[k' v] l IH]; simpl; [reflexivity|].
+  destruct (bytes_eqb k' k) eqn:E; simpl.
+  - apply bytes_eqb_eq in E. subst k'. rewrite (bytes_eqb_sym k k2), N. reflexivity.
+  - destruct (bytes_eqb k' k2); [reflexivity|exact IH].
+Qed.
+Lemma r_get_app_other k k2 x l : bytes_eqb k2 k = false -> r_get k2 (l ++ [(k, x)]) = r_get k2 l.
+Proof.
+  intro N. induction l as [|[k' v] l IH]; simpl.
+  - rewrite (bytes_eqb_sym k k2), N. reflexivity.
+  - destruct (bytes_eqb k' k2); [reflexivity|exact IH].
+Qed.
+Lemma r_get_app_same k x l : r_get k l = None -> r_get k (l ++ [(k, x)]) = Some x.
+Proof.
+  induction l as [|[k' v] l IH]; simpl; intro H.
+  - rewrite bytes_eqb_refl. reflexivity.
+  - destruct (bytes_eqb k' k); [discriminate|]. apply IH. exact H.
+Qed.
+
+Lemma e_put_get_same k x l : e_get k (e_put k x l) = Some x.
+Proof.
+  rewrite e_get_rec, e_put_rec. destruct (r_get k l) eqn:G.
+  - rewrite r_get_upd_same, G. reflexivity.
+  - apply r_get_app_same. exact G.
+Qed.
+Lemma e_put_get_other k k2 x l : bytes_eqb k2 k = false -> e_get k2 (e_put k x l) = e_get k2 l.
+Proof.
+  intro N. rewrite !e_get_rec, e_put_rec. destruct (r_get k l).
+  - apply r_get_upd_other. exact N.
+  - apply r_get_app_other. exact N.
+Qed.
+
+(* remove: the other entries keep their order and values *)
+Lemma e_del_keys k l : map fst (e_del k l) = del_first k (map fst l).
+Proof.
+  rewrite e_del_rec. induction l as [|[k' v] l IH]; simpl; [reflexivity|].
+  destruct (bytes_eqb k' k); simpl; [reflexivity|]. rewrite IH. reflexivity.
+Qed.
+Lemma e_del_get_other k k2 l : bytes_eqb k2 k = false -> e_get k2 (e_del k l) = e_get k2 l.
+Proof.
+  intro N. rewrite !e_get_rec, e_del_rec. induction l as [|[k' v] l IH]; simpl; [reflexivity|].
+  destruct (bytes_eqb k' k) eqn:E; simpl.
+  - apply bytes_eqb_eq in E. subst k'. rewrite (bytes_eqb_sym k k2), N. reflexivity.
+  - destruct (bytes_eqb k' k2); [reflexivity|exact IH].
+Qed.
+
+(* sort: a permutation of the entries, in ascending key order *)
+Lemma kle_trans a b c : kle a b = true -> kle b c = true -> kle a c = true.
+Proof. unfold kle. apply key_leb_trans. Qed.
+Lemma kle_total a b : kle a b = false -> kle b a = true.
+Proof. unfold kle. apply key_leb_total. Qed.
+
+Lemma e_sort_perm l : Permutation (e_sort l) l.
+Proof. apply stable_sort_perm. Qed.
+Lemma e_sort_sorted l : sorted_by (fun a b => key_leb (fst a) (fst b) = true) (e_sort l).
+Proof. apply (stable_sort_sorted kle kle_trans kle_total). Qed.
+
+(* vectors *)
+Lemma v_ins_spec {A} i (x : A) l : i <= length l ->
+  firstn i (v_ins i x l) = firstn i l /\ nth_error (v_ins i x l) i = Some x /\ skipn (S i) (v_ins i x l) = skipn i l.
+Proof.
+  intro H. unfold v_ins.
+  assert (L : length (firstn i l) = i) by (apply firstn_length_le; exact H).
+  repeat split.
+  - rewrite firstn_app, L, Nat.sub_diag. simpl. rewrite app_nil_r.
+    rewrite firstn_firstn, Nat.min_id. reflexivity.
+  - rewrite nth_error_app2; rewrite L; [|apply Nat.le_refl]. rewrite Nat.sub_diag. reflexivity.
+  - replace (S i) with (length (firstn i l ++ [x])) by (rewrite app_length, L; simpl; lia).
+    change (firstn i l ++ x :: skipn i l) with (firstn i l ++ [x] ++ skipn i l).
+    rewrite app_assoc, skipn_app, skipn_all, Nat.sub_diag. reflexivity.
 Qed.
